@@ -570,7 +570,7 @@ def main():
     seed = int(os.environ.get("VERIF_SEED", "0"))
     if seed:
         import random; random.Random(seed).shuffle(qs)
-    tcap = {"quick": 240, "thorough": 1800}[a.tier]
+    tcap = {"quick": 240, "thorough": 1800}.get(a.tier, 1800)
     memgb = 14
     known, fixed = load_known()
     jobs = a.jobs or 7       # each query runs main+witness cbmc concurrently
